@@ -255,7 +255,7 @@ theorem loopToEnd_succ (P : Params) (cb : Nat → CbRet) (set : Settings) (n : N
     loopToEnd P cb set (n + 1) rest sched c w = loopFrom P cb set n (blockLoop P cb set rest sched c w) := rfl
 
 theorem runToEnd_cont (P : Params) (v : Variant) (cb : Nat → CbRet) (stack : Nat) (n : Nat) (s : Sc) (it : It) (w : World)
-    (hcb : s.set.hasCallback = true) (hle : it.lastError = .blockNotReady) :
+    (hcb : s.set.hasCallback = true) (hle : it.lastError = .blockNotReady) (hnb : s.core.notebook = true) :
     runToEnd P v cb stack n s it w = afterLoop P cb stack s it (loopToEnd P cb s.set n it.rest it.sched s.core w) := by
   induction n generalizing s it w with
   | zero =>
@@ -266,14 +266,16 @@ theorem runToEnd_cont (P : Params) (v : Variant) (cb : Nat → CbRet) (stack : N
   | succ n ih =>
     simp only [runToEnd, loopToEnd_succ]
     have hsc : scanCall P v cb stack s it w = afterLoop P cb stack s it (blockLoop P cb s.set it.rest it.sched s.core w) := by
-      simp [scanCall, hcb, hle]
+      simp [scanCall, hcb, hle, hnb]
     rw [hsc]
     by_cases hL : (blockLoop P cb s.set it.rest it.sched s.core w).result = .blockNotReady
     · generalize hLd : blockLoop P cb s.set it.rest it.sched s.core w = L at hL ⊢
       have hlast : L.lastError = .blockNotReady := by rw [← hLd]; exact blockLoop_nr_lastError _ _ _ _ _ _ _ (by rw [hLd]; exact hL)
       rw [afterLoop_nr _ _ _ _ _ _ hL]
       simp only [if_true]
-      rw [ih { s with core := L.core } { it with rest := L.rest, sched := L.sched, lastError := L.lastError } L.world hcb hlast]
+      have hnb' : L.core.notebook = true := by
+        rw [← hLd]; exact (blockLoop_frame P cb s.set it.rest it.sched s.core w).notebook.trans hnb
+      rw [ih { s with core := L.core } { it with rest := L.rest, sched := L.sched, lastError := L.lastError } L.world hcb hlast hnb']
       simp only [loopFrom, if_pos hL]
       rw [afterLoop_pre, afterLoop_core_irrel,
         afterLoop_it_irrel P cb stack s { it with rest := L.rest, sched := L.sched, lastError := L.lastError } it _ rfl rfl]
@@ -295,8 +297,11 @@ theorem runToEnd_fresh (P : Params) (v : Variant) (cb : Nat → CbRet) (stack : 
     have hlast : L.lastError = .blockNotReady := by rw [← hLd]; exact blockLoop_nr_lastError _ _ _ _ _ _ _ (by rw [hLd]; exact hL)
     rw [afterLoop_nr _ _ _ _ _ _ hL]
     simp only [if_true]
+    have hnb' : L.core.notebook = true := by
+      rw [← hLd]
+      exact (blockLoop_frame P cb s.set it.all it.sched (freshInit P v s.core w) w).notebook.trans (freshInit_notebook ..)
     rw [runToEnd_cont P v cb stack n { s with core := L.core } { it with rest := L.rest, sched := L.sched, lastError := L.lastError }
-      L.world hcb hlast]
+      L.world hcb hlast hnb']
     simp only [loopFrom, if_pos hL]
     rw [afterLoop_pre, afterLoop_core_irrel,
       afterLoop_it_irrel P cb stack s { it with rest := L.rest, sched := L.sched, lastError := L.lastError } it _ rfl rfl]
